@@ -31,6 +31,7 @@ func main() {
 	runBoolMaps()
 	runArray()
 	runArrayArgProducts(chk.Pick(2, 4))
+	runDirtyOperands()
 	chk.Finish()
 }
 
@@ -1039,6 +1040,12 @@ func replay(path string) {
 		argOne(chk.NewLocal(), c)
 		fmt.Printf("replay %s%v on %dx%d content %d\n", c.Op, c.Args, c.W, c.H, c.Init)
 		chk.Count("evaluations", 1)
+		return
+	} else if k == "dirty-operand" {
+		var c dirtyCase
+		mc.LoadReplay(path, &c)
+		dirtyOne(chk.NewLocal(), c)
+		fmt.Printf("replay %+v\n", c)
 		return
 	} else if k == "boolmap" {
 		var c boolMapCase
